@@ -88,6 +88,17 @@ void splinetable<Alloc>::fit(const ::ndsparse& data,
 		                       +std::to_string(smoothing.size())
 		                       +") should be 1 or the number of spline dimensions ("
 		                       +std::to_string(data.ndim)+")");
+	//a negative smoothing strength or weight makes the normal equations
+	//indefinite: there is no least squares problem to solve then (and the
+	//non-negative solver of a monotonic fit asserts on it)
+	for(size_t i=0; i<smoothing.size(); i++){
+		if(!(smoothing[i]>=0))
+			throw std::logic_error("Smoothing strengths must not be negative or NaN");
+	}
+	for(size_t i=0; i<weights.size(); i++){
+		if(!(weights.data()[i]>=0))
+			throw std::logic_error("Weights must not be negative or NaN");
+	}
 	if(penaltyOrder.size()!=data.ndim && penaltyOrder.size()!=1)
 		throw std::logic_error("Number of penalty orders specified ("
 		                       +std::to_string(penaltyOrder.size())
